@@ -71,6 +71,15 @@ def corpus():
                         if style == "kitty":
                             c["args"]["blend"] = not mix
                         cs.append(c)
+    # kitty transmissions whose base64 payload is an exact multiple of the chunk size (k * 4096):
+    # the last chunk must still close the chunked transmission (m=0)
+    for (cells, px, mode, alpha) in (([16, 2], [128, 32], "RGB", None), ([8, 2], [64, 32], "RGB", None),
+                                     ([6, 2], [48, 32], "RGBA", 0.5), ([12, 1], [96, 16], "RGBA", 0.5)):
+        for m in ("lines", "whole"):
+            for mix in (False, True):
+                cs.append({"style": "kitty", "cells": cells, "cell_size": [8, 16], "alpha": alpha, "term": "",
+                           "img": {"mode": mode, "size": px, "seed": 9, "kind": "runs", "alphas": [255]},
+                           "args": {"method": m, "compress": 0, "mix": mix}})
     return cs
 
 
